@@ -60,11 +60,33 @@ theorem phase_free (nums : List Int) (prt : List Rat) (ρ : Int) (β : Rat) (k :
       ∀ x ∈ iprtOf nums off, ∃ n ∈ nums, x = (n - ρ) % 5 :=
   Thermal.phase_free nums prt ρ β k hc hβ hne hne'
 
-/-- **Pixel-local**: a pixel's temperature is a function of its own count and its line's smoothed
-telemetry (the type of the per-pixel function) -/
-theorem pixel_local (co : ChanCoef) (is3b : Bool) (tBB cS cBB cE : ℝ) :
-    ∃ f : ChanCoef → Bool → ℝ → ℝ → ℝ → ℝ → Option ℝ, f co is3b tBB cS cBB cE = btMasked co is3b tBB cS cBB cE :=
-  ⟨btMasked, rfl⟩
+/-- **Pixel-local**: replacing the count of pixel (i, j) changes no other entry of the output array
+(the smoothed telemetry is computed by `prepare`, which has no earth-count argument at all) -/
+theorem pixel_local (co : ChanCoef) (is3b : Bool) (tele : List (ℝ × ℝ × ℝ)) (counts : List (List ℝ))
+    (i j : Nat) (v : ℝ) (i' j' : Nat) (hne : i' ≠ i ∨ j' ≠ j) :
+    ((calArray co is3b tele (counts.modify i (·.set j v)))[i']?.bind (·[j']?)) =
+      ((calArray co is3b tele counts)[i']?.bind (·[j']?)) := by
+  unfold calArray calLine
+  by_cases hi : i' = i
+  · subst hi
+    have hj : j' ≠ j := by rcases hne with h | h; exact absurd rfl h; exact h
+    simp only [List.getElem?_zipWith, List.getElem?_modify]
+    cases tele[i']? <;> cases counts[i']? <;> simp [List.getElem?_set, Ne.symm hj]
+  · simp only [List.getElem?_zipWith, List.getElem?_modify, if_neg (Ne.symm hi)]
+    simp
+
+/-- ... and the array keeps its shape -/
+theorem shape_kept (co : ChanCoef) (is3b : Bool) (tele : List (ℝ × ℝ × ℝ)) (counts : List (List ℝ))
+    (h : tele.length = counts.length) :
+    (calArray co is3b tele counts).length = counts.length ∧
+    ∀ (i : Nat) (row : List ℝ), counts[i]? = some row → ∃ out : List (Option ℝ), (calArray co is3b tele counts)[i]? = some out ∧ out.length = row.length := by
+  unfold calArray calLine
+  refine ⟨by simp [h], fun i row hr => ?_⟩
+  have hi : i < counts.length := by
+    rcases List.getElem?_eq_some_iff.mp hr with ⟨hi, _⟩; exact hi
+  have ht : i < tele.length := h ▸ hi
+  refine ⟨row.map (btMasked co is3b tele[i].1 tele[i].2.2 tele[i].2.1), ?_, by simp⟩
+  simp [List.getElem?_zipWith, List.getElem?_eq_getElem ht, hr]
 
 example : allChan.length = 17 := by decide +kernel
 
